@@ -98,7 +98,8 @@ class AbsPDF:
         return self.vm.trainable_variables
 
     def cached_available(self):
-        return True
+        # a traced function would freeze the masked values
+        return not self.vm.mask_vars
 
     def __call__(self, data, cached=False):
         if isinstance(data, LazyCall):
@@ -175,6 +176,12 @@ class BaseAmplitudeModel(AbsPDF):
         return self.decay_group.chains_particle()
 
     def cached_available(self):
+        # a traced function would freeze masked parameters and factors
+        if self.vm.mask_vars:
+            return False
+        for i in self.decay_group:
+            if getattr(i, "mask_factor", False):
+                return False
         return not self.decay_group.not_full
 
     def pdf(self, data):
